@@ -1370,3 +1370,27 @@ Proof.
     { apply existsb_exists. exists true. split; [|reflexivity]. rewrite <- Hn. apply nth_In. exact Hi'. }
     rewrite E. reflexivity.
 Qed.
+
+(* the register-size test comes before the single-pulse shortcut: one two-qubit pulse on qubits (1, 2) with N = 2, one
+   single-qubit pulse on qubit 1 with N = 1 (N equals the number of the pulse's qubits in both) are rejected *)
+Definition one_pulse (d : nat) : pulse_d :=
+  Build_pulse_d true d 0 [Build_cterm_d 0 "c"] [Build_nterm_d 0 "n" (Some 1%Z)] 0 None false false.
+Example extend_register_before_shortcut :
+  validate_extend (Build_extend_d [Build_ext_entry (one_pulse 4) (QTuple [1; 2]) None] 2 (Some 2) 2 None None None false) = Raise ValueError /\
+  validate_extend (Build_extend_d [Build_ext_entry (one_pulse 2) (QInt 1) None] 2 (Some 1) 2 None None None false) = Raise ValueError /\
+  validate_extend (Build_extend_d [Build_ext_entry (one_pulse 2) (QTuple [1]) None] 2 (Some 1) 2 None None None false) = Raise ValueError /\
+  (* and the shortcut itself: own qubits, register of exactly that size *)
+  validate_extend (Build_extend_d [Build_ext_entry (one_pulse 4) (QTuple [0; 1]) None] 2 (Some 2) 2 None None (Some true) false) = ok /\
+  validate_extend (Build_extend_d [Build_ext_entry (one_pulse 2) (QInt 0) None] 2 None 2 None None (Some true) false) = ok.
+Proof. repeat split; vm_compute; reflexivity. Qed.
+
+(* a register smaller than the highest qubit index + 1 is rejected whatever the number of entries (in particular one) *)
+Theorem extend_complete_register x n :
+  x_entries x <> [] -> Forall (fun e => p_ispulse (x_pulse e) = true) (x_entries x) ->
+  Forall (entry_dim_ok (x_dpq x)) (x_entries x) ->
+  (exists t, Forall (fun v => v = t) (map (fun e => p_dt (x_pulse e)) (x_entries x))) ->
+  x_N x = Some n -> n < fold_right Nat.max 0 (flat_map (fun e => qubit_list (x_qubits e)) (x_entries x)) + 1 ->
+  validate_extend x = Raise ValueError.
+Proof.
+  intros Hne Hp Hd Ht Hn Hlt. apply extend_complete_clash_or_register; auto. right. exists n. split; assumption.
+Qed.
